@@ -169,7 +169,7 @@ RW_RULES = [
 ]
 UNITS.append(dict(name="c04_rrtstar_rewire", template="C04/rrtstar_rewire.c", entry="h_rewire", enforce=["rrtstar_rewire"], flags=FLAGS, level="proof", bound="<= 4 neighbours",
                   replace=["motionCostIdx", "combine", "better", "distanceIdx", "checkMotionIdx", "removeFromParent", "pushChild", "updateChildCosts"],
-                  functions=["ompl::geometric::RRTstar::solve (rewiring step)"], backend="minisat", timeout=3000, in_tiers=("thorough",), expect_loops=1, confirm=dict(unwind=4, defines={"MAXNB": 2}),
+                  functions=["ompl::geometric::RRTstar::solve (rewiring step)"], backend="kissat", timeout=2400, in_tiers=("thorough",), expect_loops=1, confirm=dict(unwind=4, defines={"MAXNB": 2}),
                   sources=[dict(name="rewire", file=RRTS, begin=r"bool checkForSolution = false;\s*for \(std::size_t i = 0; i < nbh\.size\(\); \+\+i\)\s*\{\s*if \(nbh\[i\] != motion->parent\)",
                                 end=r"double distanceFromGoal;", wrap_braces=False, rules=RW_RULES, loops={1: """
 __CPROVER_assigns(i, checkForSolution, __CPROVER_object_whole(PARENT), __CPROVER_object_whole(INC), __CPROVER_object_whole(COSTM), checkedG, removedG, pushedG, updatedG)
